@@ -277,12 +277,16 @@ def _run_shard(args):
         nontriv = set()
         state = {"last_failure": None}
 
+        slow_limit = float(os.environ.get("VERIF_SLOW", "0") or 0)
+
         def run_case(case, record=True):
             reset_globals()
             ctx = Ctx(facet_name, case, known, module)
             cap = io.StringIO()
+            ctx.captured_stdout = cap  # facets may inspect what the library printed (e.g. iteration-cap warnings)
             old = sys.stdout
             sys.stdout = cap
+            t_case = time.time()
             try:
                 facet["check"](case, ctx)
             except CheckFailure as e:
@@ -317,6 +321,17 @@ def _run_shard(args):
                     raise CheckFailure(oracle, str(e))
             finally:
                 sys.stdout = old
+                dt = time.time() - t_case
+                if dt > out.get("slowest_case_s", 0.0):
+                    out["slowest_case_s"] = dt
+                if slow_limit and dt > slow_limit:
+                    sys.stderr.write(f"SLOW {facet_name} shard={shard} {dt:.1f}s classes={ctx.classes[:12]} hash={case_hash(case)}\n")
+                    try:
+                        os.makedirs("/tmp/verif_slow", exist_ok=True)
+                        with open(f"/tmp/verif_slow/{prop}-{facet_name}-{case_hash(case)}.json", "w") as fh:
+                            json.dump({"property": prop, "facet": facet_name, "oracle": "slow", "detail": f"{dt:.1f}s", "case": _jsonable(case)}, fh)
+                    except Exception:
+                        pass
             if record:
                 out["evaluations"] += 1
                 out["oracle_evals"] += ctx.n_oracles
@@ -416,6 +431,8 @@ def _run_shard(args):
                     out["failure"] = state["last_failure"]
                     break
             out["enumerated_total"] = len(items)
+            ex = facet.get("exhaustive", True)  # a facet whose item list is a sample says so (bool or tier -> bool)
+            out["enumeration_exhaustive"] = bool(ex(tier)) if callable(ex) else bool(ex)
         else:
             raise HarnessError(f"unknown facet kind {kind}")
         out["nontrivial_hashes"] = sorted(nontriv)
@@ -554,6 +571,7 @@ def main(argv=None):
         f["inconclusive"] += r["inconclusive"]
         f["oracle_evals"] += r["oracle_evals"]
         f["wall_s"] = max(f["wall_s"], r.get("wall_s", 0.0))
+        f["slowest_case_s"] = max(f.get("slowest_case_s", 0.0), r.get("slowest_case_s", 0.0))
         for c, k in r["classes"].items():
             f["classes"][c] = f["classes"].get(c, 0) + k
         for o, v in r["residuals"].items():
@@ -567,7 +585,7 @@ def main(argv=None):
             f["failures"].append(r["failure"])
         if "enumerated_total" in r:
             f["enumerated_total"] = r["enumerated_total"]
-            f["exhaustive"] = True
+            f["exhaustive"] = bool(r.get("enumeration_exhaustive", True)) and not r["failure"]
 
     violations = []
     seen_sig = set()
@@ -657,6 +675,7 @@ def main(argv=None):
                         "regression_witnesses": f.get("regression_witnesses", 0),
                         "nontrivial_rule": facets.get(fname, {}).get("nontrivial", ""),
                         "wall_s": round(f.get("wall_s", 0.0), 2),
+                        "slowest_case_s": round(f.get("slowest_case_s", 0.0), 2),
                     }
                     for fname, f in per_facet.items()
                 },
